@@ -233,6 +233,15 @@ def exp_log_config(ctx, spec, thetas, k):
         pairs = bracket_thetas(evl, mke)
         compare(ctx, "log", name, evl, mke, lambda i, th, ins: alg_vec(spec, axis, T, [th])[0][:, None], thetas, pairs, info)
         ad_finite(ctx, "log", name, [a], [G.elem(a).log().param], mke, pairs)
+        kind = spec.kind if isinstance(spec, SO3Spec) else getattr(getattr(spec, "so3", None), "kind", None)
+        if kind == "quat":
+            # the other unit quaternion of the same element (-q: what products return once the accumulated rotation
+            # has passed half a turn) -- same rotation magnitude, same exact log
+            def mke_neg(ths):
+                E = oracle_element(spec, alg_vec(spec, axis, T, ths)).copy()
+                E[:, -4:] = -E[:, -4:]
+                return [E]
+            compare(ctx, "log_negated_quaternion", name, evl, mke_neg, lambda i, th, ins: alg_vec(spec, axis, T, [th])[0][:, None], thetas, bracket_thetas(evl, mke_neg), info)
         # self-check of the oracle's element formulas against mp (so that a wrong oracle cannot hide behind 'log')
         for th in (0.0, 1e-7, 1e-3, 0.3, 1.0):
             Xv = alg_vec(spec, axis, T, [th])
